@@ -350,6 +350,62 @@ class Interp:
         fr.retval = None
         fr.returned = True
 
+    def s_With(self, st, fr, guard):
+        """context managers are modelled objects whose __enter__ returns themselves (file stand-ins); __exit__ has no effect"""
+        for item in st.items:
+            v = self.eval(item.context_expr, fr, guard)
+            if not getattr(v, "is_model_context", False):
+                raise Unsupported(f"with-statement on {type(v).__name__} line {st.lineno}")
+            if item.optional_vars is not None:
+                self.assign(item.optional_vars, v, fr, guard)
+        self.exec_block(st.body, fr, guard)
+
+    def s_Try(self, st, fr, guard):
+        """try / except over a body of ONE statement (exceptions are recorded guards, not control flow across calls: the rest
+        of a longer body would run on after a raising call): raises recorded while the body runs that a handler's class
+        catches are removed from the record and the handler runs under their disjunction"""
+        import builtins
+        if len(st.body) != 1 or st.orelse or st.finalbody:
+            raise Unsupported(f"try statement with a body of several statements / else / finally, line {st.lineno}")
+        n0 = len(self.ctx.raises)
+        self.exec_block(st.body, fr, guard)
+        new = self.ctx.raises[n0:]
+        del self.ctx.raises[n0:]
+
+        def catches(h, name):
+            if h.type is None:
+                return True
+            hs = h.type.elts if isinstance(h.type, ast.Tuple) else [h.type]
+            for t in hs:
+                hn = t.id if isinstance(t, ast.Name) else getattr(t, "attr", None)
+                if hn == name:
+                    return True
+                a, b = getattr(builtins, name, None), getattr(builtins, hn or "", None)
+                if isinstance(a, type) and isinstance(b, type) and issubclass(a, b):
+                    return True
+            return False
+        remaining = list(new)
+        for h in st.handlers:
+            mine = [(g, n) for g, n in remaining if catches(h, n)]
+            remaining = [(g, n) for g, n in remaining if not catches(h, n)]
+            if not mine:
+                continue
+            if h.name:
+                raise Unsupported("except ... as name")
+            c = b_or(*[g for g, _ in mine])
+            c = self.decide(as_cond(c), guard) if c is not True else True
+            if c is False:
+                continue
+            # a raise inside the body's own frame set the frame's return flag: the handler resumes
+            if c is True or z3.is_true(c):
+                fr.returned = False
+                self.exec_block(h.body, fr, guard)
+            else:
+                if fr.returned is not False:
+                    raise Unsupported("conditionally caught raise of the enclosing frame")
+                self.guarded(c, lambda g2: self.exec_block(h.body, fr, g2), fr, guard)
+        self.ctx.raises.extend(remaining)
+
     def s_Break(self, st, fr, guard):
         fr.brk = True
 
@@ -426,6 +482,10 @@ class Interp:
             raise Unsupported("merge of distinct arrays")
         if isinstance(a, tuple) and isinstance(b, tuple) and len(a) == len(b):
             return tuple(self.ite(c, x, y) for x, y in zip(a, b))
+        if isinstance(a, list) and isinstance(b, list):
+            if len(a) != len(b):
+                raise Unsupported("merge of lists of different lengths")
+            return [self.ite(c, x, y) for x, y in zip(a, b)]
         if a is None or b is None:
             return b if a is None else a          # one side raised: its value is irrelevant
         if isinstance(a, MBag) and isinstance(b, MBag):
@@ -820,6 +880,9 @@ class Interp:
         if isinstance(a, MStr) and isinstance(b, str) and isinstance(op, (ast.In, ast.NotIn)):
             r = z3.And(a.length == 1, z3.Or(*[a.char_at(a.start) == ord(ch) for ch in b])) if b else z3.BoolVal(False)
             return r if isinstance(op, ast.In) else z3.Not(r)
+        if isinstance(a, MStr) and isinstance(b, (list, tuple)) and all(isinstance(x, str) for x in b) and isinstance(op, (ast.In, ast.NotIn)):
+            r = z3.Or(*[a.eq_const(x) for x in b]) if b else z3.BoolVal(False)
+            return r if isinstance(op, ast.In) else z3.Not(r)
         if isinstance(a, MStr) or isinstance(b, MStr):
             if isinstance(b, MStr):
                 a, b = b, a
@@ -861,16 +924,28 @@ class Interp:
                 return
             g = e.generators[gi]
             it = self.eval(g.iter, fr, guard)
-            items = [self.arr_get(it, (i,)) for i in range(it.shape[0])] if isinstance(it, Arr) else list(it)
+            if isinstance(it, MSplit):
+                # pieces of a symbolic split: existence must be decided by the precondition (no guarded list model)
+                items = []
+                for k in range(it.max_pieces()):
+                    exists, view = it.piece(k)
+                    ex_c = self.decide(as_cond(exists), guard)
+                    if ex_c is False:
+                        break
+                    if ex_c is not True and not z3.is_true(ex_c):
+                        raise Unsupported("comprehension over a split whose number of pieces is not decided by the precondition")
+                    items.append(view)
+            else:
+                items = [self.arr_get(it, (i,)) for i in range(it.shape[0])] if isinstance(it, Arr) else list(it)
             for x in items:
                 self.assign(g.target, x, fr, guard)
                 ok = True
                 for cond in g.ifs:
-                    c = as_cond(self.eval(cond, fr, guard))
-                    if c is False:
+                    c = self.decide(as_cond(self.eval(cond, fr, guard)), guard)
+                    if c is False or (c is not True and z3.is_false(c)):
                         ok = False
                         break
-                    if c is not True:
+                    if c is not True and not z3.is_true(c):
                         raise Unsupported("comprehension filtered by a symbolic condition")
                 if ok:
                     rec(gi + 1)
@@ -903,6 +978,7 @@ class Interp:
         return self.call(f, args, kwargs, guard)
 
     def call(self, f, args, kwargs, guard):
+        self.cur_guard = guard
         if isinstance(f, tuple) and f and f[0] == "arrmethod":
             return self.models["arr." + f[2]](self, f[1], *args, **kwargs)
         if isinstance(getattr(f, "__self__", None), (MSet, MStr, MSplit, MBag)):
